@@ -20,7 +20,9 @@ def gen_case(seed: int, tier: str, index: int, base_gen) -> Dict[str, Any]:
     c["world"] = "T"
     cfg = c["cfg"]
     cfg.pop("loop", None)
-    cfg["early"] = False
+    rng0 = random.Random(mix(seed, "c05t.early"))
+    cfg["early"] = rng0.random() < 0.35        # partial updates that reach the client while its handshake is still in progress
+    cfg["early_recs"] = [[[rng0.choice([275, 300, 301, 400, 600, 1000]), rng0.getrandbits(16)]] for _ in range(rng0.randint(1, 4))]
     cfg["sched"] = {"cost_p": 0.2, "cost_max": 0.002}
     rng = random.Random(mix(seed, "c05t"))
     cfg["tables"] = {"idle": {"PING_FREQUENCY_IN_SECONDS": rng.choice([2, 5, 60]), "PROTOCOL_TIMEOUT_IN_SECONDS": rng.choice([1, 2]),
@@ -52,6 +54,19 @@ def scenario(world: WorldT) -> None:
         return orig(offset, segment)
     spa.struct.replace_status_block_segment = wrapped
     spa.start_connect()
+    if cfg.get("early"):
+        # someone presses a button on the spa while the client is still connecting: partial updates arrive during the handshake
+        world.wait_until(lambda: model.last_sender is not None, 10, step=0.01)
+        client_addr = model.last_sender
+        for recs in cfg.get("early_recs", []):
+            if client_addr is None or spa._is_connected:
+                break
+            changes = [(pos, struct.pack(">H", v)) for pos, v in recs]
+            for pos, data in changes:
+                model.structure.replace_status_block_segment(pos, data)
+            model.emit_statp(changes, clients=[client_addr])
+            res.probe("partial_update_during_handshake")
+            world.sleep(0.35)
     if not world.wait_until(lambda: spa._is_connected, 44):
         raise HarnessError("blocking client did not connect on a healthy network")
     # the spa learns its clients from pings
@@ -117,6 +132,21 @@ def scenario(world: WorldT) -> None:
         else:
             cls, what = "out-of-order-change", f"first difference at #{k}: applied {partial[k]}, arrival order has {expected[k]}"
         world.violate(PROP, cls, f"{label} partial updates applied differ from arrival order: {what}")
+    # order against refreshes: a record that arrived before the final segment of a chain is applied before that chain is installed
+    statv_rx = sorted(es for r in world.net.history if r.dst == local and r.verb == "STATV" for es, t in r.deliveries)
+    big = [(seq, o, len(sg)) for (seq, o, sg, _) in writes if len(sg) > 2]
+    part_w = [(seq, o, sg) for (seq, o, sg, _) in writes if len(sg) <= 2]
+    if partial == expected:
+        arr_seq = []
+        for es, r in arrivals:
+            arr_seq.extend([es] * len(decode_statp(inner_of(r.data))))
+        for (w_seq, o, sg), a_seq in zip(part_w, arr_seq):
+            for (i_seq, io, iln) in big:
+                final_rx = max((x for x in statv_rx if x < i_seq), default=None)
+                if final_rx is not None and a_seq < final_rx and w_seq > i_seq:
+                    world.violate(PROP, "out-of-order-change", f"{label} the change ({o}, {sg!r}) arrived (event {a_seq}) before the final segment of a "
+                                  f"refresh (event {final_rx}) but was applied (event {w_seq}) after that refresh was installed (event {i_seq})",
+                                  sig="out-of-order-change:applied-after-later-refresh")
     acks = [r for r in world.net.history if r.src == local and r.verb == "STATQ"]
     for r in acks:
         seqb = inner_of(r.data)[5]
@@ -131,6 +161,26 @@ def scenario(world: WorldT) -> None:
         blk = before[:o] + s + before[o + len(s):]
     if blk is not None and spa.struct.status_block != blk:
         world.violate(PROP, "unrecorded-write", f"{label} final block is not the fold of the recorded writes")
+    # (a chain is a snapshot taken when the spa answered the request: an update that arrives while a chain is still arriving is rightly
+    # overwritten by older data, so the final comparison is only made when no update arrived during a transfer)
+    statu_tx = sorted(r.lseq for r in world.net.history if r.src == local and r.verb == "STATU" and r.lseq is not None)
+    skip = set()
+    for es, r in arrivals:
+        before = [x for x in statu_tx if x < es]
+        if before and not any(i_seq > before[-1] and i_seq < es for (i_seq, _, _) in big):
+            # a request went out before this update and its chain had not been installed yet: the positions of this update are exempt
+            for pos, data in decode_statp(inner_of(r.data)):
+                skip.update(range(pos, pos + len(data)))
+    if skip:
+        res.probe("update_arrived_during_a_transfer")
+    cmp_pos = [i for i in range(1024) if i not in skip]
+    if (res.faultfree and not any(op["op"] == "set1" for op in world.case["plan"]) and len(spa.struct.status_block) >= 1024
+            and any(spa.struct.status_block[i] != model.structure.status_block[i] for i in cmp_pos)) or (res.faultfree and len(spa.struct.status_block) != 1024):
+        # nothing was lost after the handshake: the updates applied in arrival order on top of what the handshake fetched must leave
+        # the spa's block
+        diff = [i for i in cmp_pos if i < len(spa.struct.status_block) and spa.struct.status_block[i] != model.structure.status_block[i]]
+        world.violate(PROP, "final-block-mismatch", f"{label} fault-free session: the client block (length {len(spa.struct.status_block)}) differs from the spa's at {diff[:8]} after all updates "
+                      f"were delivered (a change was replayed late or dropped)")
     spa.complete()
     model._socket.close()
     res.nontrivial = len(arrivals) >= 2
